@@ -159,7 +159,27 @@ func (r *c09Run) explore(units [][]c09Case, progress func(i int, res []c09Result
 	type ref struct{ u, k int }
 	var faults []ref
 	listed := map[ref]bool{}
+	ranAlone := map[ref]bool{} // already observed alone in a fresh worker with the long deadline
 	accepted, skipped := 0, 0
+	if r.c.Thorough() {
+		// thorough: the listed unbounded cells that were kept out of their units run now, each alone
+		var ks [][]c09Case
+		var kref [][2]int
+		for u := range res {
+			for k := range res[u] {
+				if res[u][k].Status == "K" {
+					ks = append(ks, []c09Case{units[u][k]})
+					kref = append(kref, [2]int{u, k})
+				}
+			}
+		}
+		kres := conf.RunIsolated(ks)
+		for i, rf := range kref {
+			res[rf[0]][rf[1]] = kres[i][0]
+			ranAlone[ref{rf[0], rf[1]}] = true
+		}
+		r.c.Ev.Count("known_unbounded_run_alone", len(ks))
+	}
 	for u := range res {
 		obs[u] = make([]c09Obs, len(res[u]))
 		for k, rs := range res[u] {
@@ -167,6 +187,10 @@ func (r *c09Run) explore(units [][]c09Case, progress func(i int, res []c09Result
 			if rs.Status == "K" {
 				obs[u][k].Kind, obs[u][k].How = "unbounded", "isolated"
 				skipped++
+				continue
+			}
+			if ranAlone[ref{u, k}] {
+				obs[u][k].Kind, obs[u][k].How = c09FaultKind(rs), "isolated"
 				continue
 			}
 			if kind := c09FaultKind(rs); kind != "" {
@@ -424,7 +448,10 @@ func runC09(c *lib.Ctx) {
 	r := &c09Run{c: c, eng: c09NewEngine(c)}
 	defer os.RemoveAll(c09JailBase(c.Root))
 	r.eng.Expected = c09ExpectedCells(filepath.Join(c.Root, "findings", "C09.json"))
-	r.eng.SkipExpected = !c.Thorough() && c.Replay == ""
+	// the listed unbounded cells are kept out of their units in both tiers (a unit runs its cases one
+	// after the other, each of these takes a deadline); the thorough tier runs every one of them
+	// afterwards, alone and in parallel (explore)
+	r.eng.SkipExpected = c.Replay == ""
 	if c.Replay != "" {
 		r.replay()
 		return
@@ -448,6 +475,9 @@ func runC09(c *lib.Ctx) {
 	}
 	if only == "" || strings.Contains(only, "reader") {
 		r.sweepReader()
+	}
+	if only == "" || strings.Contains(only, "stream") {
+		r.sweepStream()
 	}
 	if only == "" || strings.Contains(only, "format") {
 		r.sweepFormat()
@@ -532,6 +562,8 @@ func (r *c09Run) sweepBuiltins() {
 		}
 		slow[r.fns[ui].Key()] = unitUs
 	}
+	built := r.sweepBuilt(units, cells, res)
+	r.sweepPlaces(built)
 	c.Ev.Coverage["pair_sweep_cases"] = total
 	c.Ev.Coverage["pair_sweep_fault_cells"] = faults
 	// slowest units
@@ -553,6 +585,240 @@ func (r *c09Run) sweepBuiltins() {
 	sort.Sort(sort.Reverse(sort.StringSlice(slowCases)))
 	_ = os.WriteFile(filepath.Join(c.OutDir, "slow.tsv"), []byte(strings.Join(slowCases, "\n")+"\n"), 0o644)
 	_ = os.WriteFile(filepath.Join(c.OutDir, "faults.tsv"), []byte(strings.Join(dump, "\n")+"\n"), 0o644)
+}
+
+// sweepBuilt: the constructed-objects stage (c09_built.go). pairUnits / pairCells / pairObs are the
+// pair sweep and its observations, from which acceptance is read: a function accepts a type in a
+// position when the type's plain pool representative there got past the type and arity checks in
+// at least one case.
+func (r *c09Run) sweepBuilt(pairUnits [][]c09Case, pairCells [][]c09Cell, pairObs [][]c09Obs) []c09BuiltObj {
+	c := r.c
+	built := c09BuiltPool(c.Thorough())
+	comp := c09PoolIndex(c09BuiltCompanions...)
+	if !c.Thorough() {
+		comp = comp[:6]
+	}
+	// an "object" whose construction raises is none: probe every construction text alone first
+	{
+		probe := make([]c09Case, len(built))
+		for i, b := range built {
+			probe[i] = c09Case{"E", b.Expr}
+		}
+		pres := r.eng.Confirming().RunIsolated([][]c09Case{probe})[0]
+		var ok []c09BuiltObj
+		dropped := []string{}
+		for i, b := range built {
+			if pres[i].Status == "V" {
+				ok = append(ok, b)
+			} else {
+				dropped = append(dropped, b.Type+": "+c09Clip(pres[i].Summary(), 100))
+				if kind := c09FaultKind(pres[i]); kind != "" {
+					// the construction itself faults
+					r.report(fmt.Sprintf("construct obj=%s kind=%s", b.Type, kind), true, b.Expr, "E", c09Obs{Res: pres[i], Kind: kind, How: "isolated"}, "construction history")
+				}
+			}
+		}
+		built = ok
+		c.Ev.Coverage["built_not_constructible"] = dropped
+	}
+	poolIdx := map[string]int{}
+	for i, o := range c09Pool {
+		poolIdx[o.Name] = i
+	}
+	passed := func(rs c09Result) bool {
+		return !(rs.Status == "C" && (rs.Class == "type-error" || rs.Arity))
+	}
+	var units [][]c09Case
+	type bcell struct {
+		fn     *c09Fn
+		labels string
+	}
+	var cells [][]bcell
+	n := 0
+	for ui := range pairUnits {
+		f := r.fns[ui]
+		n := len(c09Pool)
+		alone, first, second := make([]bool, n), make([]bool, n), make([]bool, n)
+		// a position where the plain representative already faults is left out: the function faults
+		// there for (nearly) every object of the type, which the pair sweep lists; a constructed
+		// object adds nothing but thousands of cells of the same defect
+		badAlone, badFirst, badSecond := make([]bool, n), make([]bool, n), make([]bool, n)
+		for k, cl := range pairCells[ui] {
+			ob := pairObs[ui][k]
+			if ob.Kind != "" {
+				switch len(cl.idx) {
+				case 1:
+					badAlone[cl.idx[0]] = true
+				case 2:
+					badFirst[cl.idx[0]], badSecond[cl.idx[1]] = true, true
+				}
+				continue
+			}
+			if !passed(ob.Res) {
+				continue
+			}
+			switch len(cl.idx) {
+			case 1:
+				alone[cl.idx[0]] = true
+			case 2:
+				first[cl.idx[0]], second[cl.idx[1]] = true, true
+			}
+		}
+
+		// accepted for one of the base representatives, faulting for none of them
+		any := func(acc []bool, base []string) bool {
+			yes := false
+			for _, b := range base {
+				if i, ok := poolIdx[b]; ok {
+					yes = yes || acc[i]
+				}
+			}
+			return yes
+		}
+		none := func(bad []bool, base []string) bool {
+			for _, b := range base {
+				if i, ok := poolIdx[b]; ok && bad[i] {
+					return false
+				}
+			}
+			return true
+		}
+		var u []c09Case
+		var cl []bcell
+		for _, b := range built {
+			if any(alone, b.Base) && none(badAlone, b.Base) {
+				u = append(u, c09Case{"E", f.CallObjs(b.c09Obj)})
+				cl = append(cl, bcell{f, b.Type})
+			}
+			if any(first, b.Base) && none(badFirst, b.Base) {
+				for _, x := range comp {
+					u = append(u, c09Case{"E", f.CallObjs(b.c09Obj, c09Pool[x])})
+					cl = append(cl, bcell{f, b.Type + "," + c09Pool[x].Type})
+				}
+			}
+			if any(second, b.Base) && none(badSecond, b.Base) {
+				for _, x := range comp {
+					u = append(u, c09Case{"E", f.CallObjs(c09Pool[x], b.c09Obj)})
+					cl = append(cl, bcell{f, c09Pool[x].Type + "," + b.Type})
+				}
+			}
+		}
+		if len(u) > 0 {
+			units = append(units, u)
+			cells = append(cells, cl)
+		}
+	}
+	sigOf := func(u, k int, kind, stage string) string {
+		s := fmt.Sprintf("fn=%s args=%s kind=%s", cells[u][k].fn.Key(), cells[u][k].labels, kind)
+		if stage == "print" || stage == "read" {
+			s += " stage=" + stage
+		}
+		return s
+	}
+	t0 := time.Now()
+	obs := r.explore(units, nil, func(u, k int, rs c09Result, kind string) string {
+		return r.knownHow(sigOf(u, k, kind, rs.Stage))
+	})
+	var dump []string
+	for u := range obs {
+		for k, ob := range obs[u] {
+			n++
+			r.countCase(!c09IsArity(ob.Res))
+			c.Ev.Hist("built_outcome", c09OutcomeBucket(ob.Res))
+			if ob.Res.Text != "" && ob.Res.Status == "V" && r.sample("built", 2) {
+				c.Ev.Sample(map[string]string{"call": units[u][k].Text, "outcome": ob.Res.Summary()})
+			}
+			if ob.Kind == "" {
+				continue
+			}
+			sig := sigOf(u, k, ob.Kind, ob.Res.Stage)
+			if ob.How == "sequence" {
+				sig += " how=sequence"
+			}
+			dump = append(dump, fmt.Sprintf("%s\t%s\t%s", sig, units[u][k].Text, ob.Res.Summary()))
+			r.report(sig, true, units[u][k].Text, "E", ob, "constructed object")
+		}
+	}
+	c.Ev.Coverage["built_objects"] = len(built)
+	c.Ev.Coverage["built_cases"] = n
+	c.Ev.Coverage["built_wall_s"] = time.Since(t0).Seconds()
+	sort.Strings(dump)
+	_ = os.WriteFile(filepath.Join(c.OutDir, "built-faults.tsv"), []byte(strings.Join(dump, "\n")+"\n"), 0o644)
+	return built
+}
+
+// sweepPlaces: setf / incf / push / pop forms over places in every pool and constructed object.
+func (r *c09Run) sweepPlaces(built []c09BuiltObj) {
+	c := r.c
+	objs := append([]c09Obj{}, c09Pool...)
+	for _, b := range built {
+		objs = append(objs, b.c09Obj)
+	}
+	byName := map[string]c09Obj{}
+	for _, o := range c09Pool {
+		byName[o.Name] = o
+	}
+	type pcell struct{ sig string }
+	var units [][]c09Case
+	var cells [][]pcell
+	for _, pf := range c09PlaceForms {
+		var u []c09Case
+		var cl []pcell
+		idxs, vals := c09PlaceIndices, c09PlaceValues
+		if !strings.Contains(pf.form, "%i") {
+			idxs = idxs[:1]
+		}
+		if !strings.Contains(pf.form, "%v") {
+			vals = vals[:1]
+		}
+		for _, o := range objs {
+			for _, in := range idxs {
+				for _, vn := range vals {
+					i, v := byName[in], byName[vn]
+					t := strings.ReplaceAll(pf.form, "%o", o.Expr)
+					t = strings.ReplaceAll(t, "%i", i.Expr)
+					t = strings.ReplaceAll(t, "%v", v.Expr)
+					sig := "place=" + pf.name + " obj=" + o.Type
+					if len(idxs) > 1 {
+						sig += " index=" + i.Name
+					}
+					if len(vals) > 1 {
+						sig += " value=" + v.Type
+					}
+					u = append(u, c09Case{"E", t})
+					cl = append(cl, pcell{sig})
+				}
+			}
+		}
+		units = append(units, u)
+		cells = append(cells, cl)
+	}
+	t0 := time.Now()
+	obs := r.explore(units, nil, func(u, k int, _ c09Result, kind string) string {
+		return r.knownHow(cells[u][k].sig + " kind=" + kind)
+	})
+	n := 0
+	var dump []string
+	for u := range obs {
+		for k, ob := range obs[u] {
+			n++
+			r.countCase(ob.Res.Status == "V" || ob.Res.Class != "type-error")
+			c.Ev.Hist("place_outcome", c09OutcomeBucket(ob.Res))
+			if ob.Kind == "" {
+				continue
+			}
+			sig := cells[u][k].sig + " kind=" + ob.Kind
+			if ob.How != "isolated" {
+				sig += " how=" + ob.How
+			}
+			dump = append(dump, fmt.Sprintf("%s\t%s\t%s", sig, units[u][k].Text, ob.Res.Summary()))
+			r.report(sig, true, units[u][k].Text, "E", ob, "place form")
+		}
+	}
+	c.Ev.Coverage["place_cases"] = n
+	c.Ev.Coverage["place_wall_s"] = time.Since(t0).Seconds()
+	sort.Strings(dump)
+	_ = os.WriteFile(filepath.Join(c.OutDir, "place-faults.tsv"), []byte(strings.Join(dump, "\n")+"\n"), 0o644)
 }
 
 // sweepTuples: 3+-tuples. A fixed table (every function that documents room for three arguments
@@ -750,7 +1016,7 @@ func (r *c09Run) report(sig string, sweep bool, text, kind string, ob c09Obs, no
 		r.cellsOf[sig] = append(r.cellsOf[sig], text)
 	}
 	in := map[string]any{"kind": kind, "text": text, "how": ob.How, "with": ob.Prefix}
-	if kind == "R" {
+	if kind == "R" || kind == "T" {
 		in["text_hex"] = lib.Hex(text)
 	}
 	rep := map[string]any{}
@@ -943,6 +1209,68 @@ func (r *c09Run) sweepReader() {
 		c.Ev.Coverage["reader_model_must_raise"] = must
 		c.Ev.Coverage["reader_model_agree"] = agree
 	}
+}
+
+// sweepStream: (a') the reader behind its stream entry points, see c09_stream.go.
+func (r *c09Run) sweepStream() {
+	c := r.c
+	if c.ModelBin != "" {
+		if f := strings.Fields(c.Model([]string{"tot blocksize"})[0]); len(f) == 2 && f[0] == "ok" {
+			if n, err := strconv.Atoi(f[1]); err == nil && n > 0 {
+				c09BlockSize = n
+			}
+		}
+	}
+	c.Ev.Coverage["stream_block_size"] = c09BlockSize
+	var avoid []c09Construct
+	for _, cs := range c09ReaderConstructs {
+		if c.Findings.Listed("C09", "reader construct="+cs.name+" ") {
+			avoid = append(avoid, cs)
+		}
+	}
+	all := append(c09StreamTable(c.Thorough()), c09StreamSeeded(c.Rng, c.Scale(6000, 120000), avoid)...)
+	cases := make([]c09Case, len(all))
+	nTable := 0
+	for i, sc := range all {
+		cases[i] = sc.request()
+		if sc.table {
+			nTable++
+		}
+	}
+	units := c09Chunk(cases, 1500)
+	t0 := time.Now()
+	obs := r.explore(units, nil, func(u, k int, _ c09Result, kind string) string {
+		if sc := all[u*1500+k]; sc.table {
+			return r.knownHow(sc.sig(kind))
+		}
+		return ""
+	})
+	c.Ev.Coverage["stream_wall_s"] = time.Since(t0).Seconds()
+	c.Ev.Coverage["stream_table_cases"] = nTable
+	c.Ev.Coverage["stream_seeded_cases"] = len(all) - nTable
+	var dump []string
+	for u := range obs {
+		for k, ob := range obs[u] {
+			sc := all[u*1500+k]
+			r.countCase(len(sc.text) >= 2)
+			c.Ev.Hist("stream_outcome", c09OutcomeBucket(ob.Res))
+			c.Ev.Hist("stream_entry", sc.entry)
+			if ob.Res.Text != "" && ob.Res.Status == "V" && sc.pad > 0 && r.sample("stream", 2) {
+				c.Ev.Sample(map[string]string{"stream_case": fmt.Sprintf("%s pad=%d %q", sc.entry, sc.pad, sc.text), "outcome": ob.Res.Summary()})
+			}
+			if ob.Kind == "" {
+				continue
+			}
+			sig := sc.sig(ob.Kind)
+			if ob.How != "isolated" {
+				sig += " how=" + ob.How
+			}
+			dump = append(dump, fmt.Sprintf("%s\t%v\tpad=%d cuts=%s %q\t%s", sig, sc.table, sc.pad, sc.cuts, c09Clip(sc.text, 80), ob.Res.Summary()))
+			r.report(sig, sc.table, units[u][k].Text, "T", ob, fmt.Sprintf("entry=%s pad=%d cuts=%q text=%q", sc.entry, sc.pad, sc.cuts, c09Clip(sc.text, 200)))
+		}
+	}
+	sort.Strings(dump)
+	_ = os.WriteFile(filepath.Join(c.OutDir, "stream-faults.tsv"), []byte(strings.Join(dump, "\n")+"\n"), 0o644)
 }
 
 // sweepFormat: (c) format control strings x argument lists.
